@@ -265,9 +265,11 @@ outer:
 		)
 	})
 
-	// Keep first (highest ranked) for each main value
+	// Keep first (highest ranked) of adjacent repetitions of a member. Members that differ
+	// in their parameters ("application/json;version=1" and "...;version=2") are
+	// different members.
 	qualityParts = slices.CompactFunc(qualityParts, func(a, b qualityValue) bool {
-		return a.main == b.main
+		return a.main == b.main && slices.Equal(a.params, b.params)
 	})
 
 	// Reconstruct
